@@ -22,9 +22,17 @@ def main() -> int:
 
     inst = pickle.load(open(sys.argv[1], "rb"))
     out, seed0, n = sys.argv[2], int(sys.argv[3]), int(sys.argv[4])
-    none_tasks = frozenset(sys.argv[5].split(",")) if len(sys.argv) > 5 and sys.argv[5] else frozenset()
-    job = mkjob(inst, none_tasks)
+    variant = sys.argv[5] if len(sys.argv) > 5 else ""
+    # "2nd+<variant>": the recorded job is the SECOND job of this process; a first job with the same task names but the plain
+    # bodies is run to its end before (whatever the library keeps between jobs must not leak into the second one)
+    second = variant.startswith("2nd+")
+    variant = variant[4:] if second else variant
+    none_tasks = frozenset(variant.split(",")) if variant else frozenset()
     env = make_env(inst)
+    if second:
+        first = mkjob(inst, frozenset())
+        record(inst, first, env, precompute(first), seed0, sequential(inst, frozenset()))
+    job = mkjob(inst, none_tasks)
     pre = precompute(job)
     expected = sequential(inst, none_tasks)
     _, comp_of = comp_names(pre)
